@@ -122,6 +122,24 @@ pub fn make_scenario(base: &Path, seed: u64, idx: usize) -> Scenario {
     for (rel, bytes) in &files {
         write_file(&origin.join(rel), bytes);
     }
+    // an executable file and a symbolic link: libgit2 then also issues chmod / symlink calls during checkout
+    let mut extra_descr = vec![];
+    if !small && rng.chance(1, 2) {
+        let rel = "scripts/run.sh";
+        let body = b"#!/bin/sh\necho run\n".to_vec();
+        write_file(&origin.join(rel), &body);
+        use std::os::unix::fs::PermissionsExt;
+        std::fs::set_permissions(origin.join(rel), std::fs::Permissions::from_mode(0o755)).ok();
+        files.insert(rel.to_string(), body);
+        extra_descr.push("executable file");
+    }
+    if !small && rng.chance(1, 2) {
+        let rel = "LINK";
+        let target = format!("{subdir}Forc.toml");
+        let _ = std::os::unix::fs::symlink(&target, origin.join(rel));
+        files.insert(rel.to_string(), format!("-> {:?}", Some(std::path::PathBuf::from(&target))).into_bytes());
+        extra_descr.push("symlink");
+    }
     git(&origin, &dir, &["init", "-q", "-b", "main", "."]);
     git(&origin, &dir, &["add", "-A"]);
     git(&origin, &dir, &["commit", "-q", "-m", "pinned"]);
@@ -162,7 +180,7 @@ pub fn make_scenario(base: &Path, seed: u64, idx: usize) -> Scenario {
     }
     cons_lib.push_str(&format!("\npub fn total() -> u64 {{\n    {expr}\n}}\n"));
     let descr = json!({"scenario_seed": seed, "scenario_idx": idx, "files": files.iter().map(|(k, v)| json!([k, v.len()])).collect::<Vec<_>>(),
-        "reference": format!("{refkind}={refval}"), "commit": commit, "package_subdir": subdir});
+        "reference": format!("{refkind}={refval}"), "commit": commit, "package_subdir": subdir, "special_files": extra_descr});
     Scenario { seed, idx, dir, origin, commit, refkind, refval, subdir, reference: files, cons_toml, cons_lib, descr }
 }
 
@@ -192,7 +210,7 @@ pub struct TrialResult {
 
 fn spec_for(scn: &Scenario, home: &Path, cons: &Path, run: &RunCfg, log: Option<&Path>) -> Spec {
     Spec {
-        exe: format!("{TOOLS_DIR}/vforc"),
+        exe: format!("{}/vforc", tools_dir()),
         args: vec!["build".into()],
         cwd: cons.to_path_buf(),
         home: home.to_path_buf(),
